@@ -2243,3 +2243,302 @@ Proof.
   destruct r0; [|injection Hr as <-; exact Hseq].
   injection Hr as <-. rewrite <- Hseq. reflexivity.
 Qed.
+
+(* set({k: v for ...}) -> {k for ...} when v has no effect *)
+Lemma dict_loop_keys : forall w elt dval t ifs en, simple dval = true ->
+  forall xs acc dacc tr r tr',
+    comp_loop (eval w) CDict elt dval t ifs en xs acc dacc tr = Some (r, tr') ->
+    exists dA kvs, r = VDict dA /\ forallb hashable kvs = true /\
+      map fst dA = fold_left set_add kvs (map fst dacc) /\
+      forall acc', comp_loop (eval w) CList elt (EConst ANone) t ifs en xs acc' [] tr = Some (VList (acc' ++ kvs), tr').
+Proof.
+  intros w elt dval t ifs en Hd. induction xs as [|x xs IH]; intros acc dacc tr r tr' Hev.
+  - cbn in Hev. injection Hev as <- <-. exists dacc, []. repeat split; try reflexivity.
+    intros acc'. cbn. rewrite app_nil_r. reflexivity.
+  - cbn [comp_loop] in *. destruct (bind t x en) as [en'|]; [|discriminate].
+    destruct (eval_conds (eval w) en' ifs tr) as [[[] tr1]|]; [| |discriminate].
+    + destruct (eval w elt en' tr1) as [[v tr2]|]; [|discriminate].
+      rewrite (simple_eval_eq _ _ _ _ Hd) in Hev. destruct (atomval dval en') as [dv|]; [|discriminate].
+      destruct (hashable v) eqn:Hh; [|discriminate].
+      destruct (IH _ _ _ _ _ Hev) as (dA & kvs & -> & Hhs & Hm & Hl).
+      exists dA, (v :: kvs). repeat split.
+      * cbn. rewrite Hh. exact Hhs.
+      * rewrite Hm, keys_of_set. reflexivity.
+      * intros acc'. rewrite Hl, <- app_assoc. reflexivity.
+    + destruct (IH _ _ _ _ _ Hev) as (dA & kvs & -> & Hhs & Hm & Hl).
+      exists dA, kvs. repeat split; assumption.
+Qed.
+
+Theorem comp_casts_set_dict : forall w elt dval t it ifs,
+  simple dval = true ->
+  rw_comp_casts (EBi BSet [EComp CDict elt dval t it ifs]) = Some (EComp CSet elt (EConst ANone) t it ifs) /\
+  forall en tr r, eval w (EBi BSet [EComp CDict elt dval t it ifs]) en tr = Some r ->
+                  eval w (EComp CSet elt (EConst ANone) t it ifs) en tr = Some r.
+Proof.
+  intros w elt dval t it ifs Hd. split; [cbn; rewrite Hd; reflexivity|].
+  intros en tr r Hev. rewrite eval_bi1 in Hev by reflexivity.
+  rewrite (eval_comp_nondict w CSet) by reflexivity. rewrite eval_EComp in *.
+  destruct (eval w it en tr) as [[itv tr0]|]; [|discriminate]. destruct (items_of itv) as [xs|]; [|discriminate].
+  destruct (comp_loop (eval w) CDict elt dval t ifs en xs [] [] tr0) as [[v tr1]|] eqn:E; [|discriminate].
+  destruct (dict_loop_keys _ _ _ _ _ _ Hd _ _ _ _ _ _ E) as (dA & kvs & -> & Hhs & Hm & Hl).
+  rewrite (Hl []). cbn [app finish_comp]. cbn [bapply items_of] in Hev. rewrite Hm in Hev. cbn [map] in Hev.
+  assert (Hk : mkset kvs = Some (VSet (fold_left set_add kvs []))) by (unfold mkset; rewrite Hhs; reflexivity).
+  rewrite Hk. rewrite (mkset_idem _ _ Hk) in Hev. exact Hev.
+Qed.
+
+(* ------------------------------------------------------------------------------------------- *)
+(* congruence: a rewrite that is right at the root is right at every node of an expression *)
+
+Definition wrapper (e : expr) : bool :=
+  match e with EStar _ | EKw _ _ | EKV _ _ | EDStar _ | EOp _ _ => true | _ => false end.
+
+(* apply f bottom-up at every proper expression node *)
+Fixpoint rw_all (f : expr -> expr) (e : expr) : expr :=
+  match e with
+  | EConst _ | EName _ => f e
+  | ECall g args => f (ECall g (map (rw_all f) args))
+  | EBi b args => f (EBi b (map (rw_all f) args))
+  | ESeq k l => f (ESeq k (map (rw_all f) l))
+  | EDict l => f (EDict (map (rw_all f) l))
+  | ECmp l r => f (ECmp (rw_all f l) (map (rw_all f) r))
+  | ENot a => f (ENot (rw_all f a))
+  | EComp k elt dval t it ifs =>
+      f (EComp k (rw_all f elt) (rw_all f dval) t (rw_all f it) (map (rw_all f) ifs))
+  | EStar a => EStar (rw_all f a)
+  | EKw k a => EKw k (rw_all f a)
+  | EKV k v => EKV (rw_all f k) (rw_all f v)
+  | EDStar a => EDStar (rw_all f a)
+  | EOp o a => EOp o (rw_all f a)
+  end.
+
+Section Congruence.
+  Variable w : world.
+  Variable f : expr -> expr.
+
+  Definition refines (a a' : expr) : Prop :=
+    forall en tr r, eval w a en tr = Some r -> eval w a' en tr = Some r.
+
+  Hypothesis f_refines : forall a, refines a (f a).
+  Hypothesis f_proper : forall a, wrapper a = false -> wrapper (f a) = false.
+
+  Definition cong_sub (e : expr) : Prop :=
+    match e with
+    | EStar a | EKw _ a | EDStar a | EOp _ a => refines a (rw_all f a)
+    | EKV k v => refines k (rw_all f k) /\ refines v (rw_all f v)
+    | _ => True
+    end.
+
+  Definition cong_P (e : expr) : Prop :=
+    refines e (rw_all f e) /\ cong_sub e /\ (wrapper e = false -> wrapper (rw_all f e) = false).
+
+  Lemma refines_trans : forall a b c, refines a b -> refines b c -> refines a c.
+  Proof. intros a b c H1 H2 en tr r H. apply H2, H1, H. Qed.
+
+  Lemma wrapper_star : forall a, wrapper a = false -> is_star a = false.
+  Proof. destruct a; try reflexivity; discriminate. Qed.
+
+  Lemma wrapper_plain : forall a, wrapper a = false -> plain a = true.
+  Proof. destruct a; try reflexivity; discriminate. Qed.
+
+  Lemma elts_cong : forall l, Forall cong_P l -> forall en tr r,
+    eval_elts (eval w) en l tr = Some r -> eval_elts (eval w) en (map (rw_all f) l) tr = Some r.
+  Proof.
+    induction 1 as [|a l [Ha [Hs Hw]] Hl IH]; intros en tr r Hev; [exact Hev|]. cbn [map].
+    destruct (wrapper a) eqn:Wa.
+    - destruct a; try discriminate; cbn [rw_all eval_elts] in *; try discriminate.
+      cbn [cong_sub] in Hs. destruct (eval w a en tr) as [[v tr1]|] eqn:Ea; [|discriminate].
+      rewrite (Hs _ _ _ Ea). destruct (items_of v); [|discriminate].
+      destruct (eval_elts (eval w) en l tr1) as [[rest tr2]|] eqn:El; [|discriminate].
+      rewrite (IH _ _ _ El). exact Hev.
+    - rewrite eval_elts_nostar_cons in Hev by (apply wrapper_star; assumption).
+      rewrite eval_elts_nostar_cons by (apply wrapper_star, Hw; reflexivity).
+      destruct (eval w a en tr) as [[v tr1]|] eqn:Ea; [|discriminate]. rewrite (Ha _ _ _ Ea).
+      destruct (eval_elts (eval w) en l tr1) as [[rest tr2]|] eqn:El; [|discriminate].
+      rewrite (IH _ _ _ El). exact Hev.
+  Qed.
+
+  Lemma args_cong : forall l, Forall cong_P l -> forall en tr r,
+    eval_args (eval w) en l tr = Some r -> eval_args (eval w) en (map (rw_all f) l) tr = Some r.
+  Proof.
+    induction 1 as [|a l [Ha [Hs Hw]] Hl IH]; intros en tr r Hev; [exact Hev|]. cbn [map].
+    destruct (wrapper a) eqn:Wa.
+    - destruct a; try discriminate; cbn [rw_all eval_args] in *; try discriminate; cbn [cong_sub] in Hs;
+        (destruct (eval w a en tr) as [[v tr1]|] eqn:Ea; [|discriminate]); rewrite (Hs _ _ _ Ea).
+      + destruct (items_of v); [|discriminate].
+        destruct (eval_args (eval w) en l tr1) as [[rest tr2]|] eqn:El; [|discriminate].
+        rewrite (IH _ _ _ El). exact Hev.
+      + destruct (eval_args (eval w) en l tr1) as [[rest tr2]|] eqn:El; [|discriminate].
+        rewrite (IH _ _ _ El). exact Hev.
+    - rewrite eval_args_plain_cons in Hev by (apply wrapper_plain; assumption).
+      rewrite eval_args_plain_cons by (apply wrapper_plain, Hw; reflexivity).
+      destruct (eval w a en tr) as [[v tr1]|] eqn:Ea; [|discriminate]. rewrite (Ha _ _ _ Ea).
+      destruct (eval_args (eval w) en l tr1) as [[rest tr2]|] eqn:El; [|discriminate].
+      rewrite (IH _ _ _ El). exact Hev.
+  Qed.
+
+  Lemma items_cong : forall l, Forall cong_P l -> forall en d tr r,
+    eval_items (eval w) en l d tr = Some r -> eval_items (eval w) en (map (rw_all f) l) d tr = Some r.
+  Proof.
+    induction 1 as [|a l [Ha [Hs Hw]] Hl IH]; intros en d tr r Hev; [exact Hev|]. cbn [map].
+    destruct a; try discriminate; cbn [rw_all eval_items] in *; cbn [cong_sub] in Hs.
+    - destruct Hs as [Hk Hv]. destruct (eval w a1 en tr) as [[kv tr1]|] eqn:E1; [|discriminate].
+      rewrite (Hk _ _ _ E1). destruct (eval w a2 en tr1) as [[vv tr2]|] eqn:E2; [|discriminate].
+      rewrite (Hv _ _ _ E2). destruct (hashable kv); [apply IH; assumption | discriminate].
+    - destruct (eval w a en tr) as [[v tr1]|] eqn:Ea; [|discriminate]. rewrite (Hs _ _ _ Ea).
+      destruct v; try discriminate. apply IH; assumption.
+  Qed.
+
+  Lemma chain_cong : forall l, Forall cong_P l -> forall en lv tr r,
+    eval_chain (eval w) w en l lv tr = Some r -> eval_chain (eval w) w en (map (rw_all f) l) lv tr = Some r.
+  Proof.
+    induction 1 as [|a l [Ha [Hs Hw]] Hl IH]; intros en lv tr r Hev; [exact Hev|]. cbn [map].
+    destruct a; try discriminate; cbn [rw_all eval_chain] in *; cbn [cong_sub] in Hs.
+    destruct (eval w a en tr) as [[rv tr1]|] eqn:Ea; [|discriminate]. rewrite (Hs _ _ _ Ea).
+    destruct (cmp_sem w o lv rv); [|discriminate]. destruct l; [exact Hev|]. cbn [map] in *.
+    destruct (truthy v); [apply IH; assumption | exact Hev].
+  Qed.
+
+  Lemma conds_cong : forall l, Forall cong_P l -> forall en tr r,
+    eval_conds (eval w) en l tr = Some r -> eval_conds (eval w) en (map (rw_all f) l) tr = Some r.
+  Proof.
+    induction 1 as [|a l [Ha [Hs Hw]] Hl IH]; intros en tr r Hev; [exact Hev|]. cbn [map eval_conds] in *.
+    destruct (eval w a en tr) as [[cv tr1]|] eqn:Ea; [|discriminate]. rewrite (Ha _ _ _ Ea).
+    destruct (truthy cv); [apply IH; assumption | exact Hev].
+  Qed.
+
+  Lemma loop_cong : forall k elt dval t ifs en,
+    refines elt (rw_all f elt) -> refines dval (rw_all f dval) -> Forall cong_P ifs ->
+    forall xs acc dacc tr r,
+      comp_loop (eval w) k elt dval t ifs en xs acc dacc tr = Some r ->
+      comp_loop (eval w) k (rw_all f elt) (rw_all f dval) t (map (rw_all f) ifs) en xs acc dacc tr = Some r.
+  Proof.
+    intros k elt dval t ifs en He Hd Hi. induction xs as [|x xs IH]; intros acc dacc tr r Hev; [exact Hev|].
+    cbn [comp_loop] in *. destruct (bind t x en) as [en'|]; [|discriminate].
+    destruct (eval_conds (eval w) en' ifs tr) as [[c tr1]|] eqn:Ec; [|discriminate].
+    rewrite (conds_cong _ Hi _ _ _ Ec). destruct c; [|apply IH; assumption].
+    destruct (eval w elt en' tr1) as [[v tr2]|] eqn:Ee; [|discriminate]. rewrite (He _ _ _ Ee).
+    destruct k; try (apply IH; assumption).
+    destruct (eval w dval en' tr2) as [[dv tr3]|] eqn:Ed; [|discriminate]. rewrite (Hd _ _ _ Ed).
+    destruct (hashable v); [apply IH; assumption | discriminate].
+  Qed.
+
+  Lemma cong_all : forall e, cong_P e.
+  Proof.
+    induction e using expr_ind'; unfold cong_P; cbn [rw_all cong_sub wrapper].
+    - split; [apply f_refines | split; [exact I | intros _; apply f_proper; reflexivity]].
+    - split; [apply f_refines | split; [exact I | intros _; apply f_proper; reflexivity]].
+    - split; [|split; [exact I | intros _; apply f_proper; reflexivity]].
+      eapply refines_trans; [|apply f_refines]. intros en tr r Hev. cbn [eval] in *.
+      destruct (eval_elts (eval w) en args tr) as [[vs tr1]|] eqn:E; [|discriminate].
+      rewrite (elts_cong _ H _ _ _ E). exact Hev.
+    - split; [|split; [exact I | intros _; apply f_proper; reflexivity]].
+      eapply refines_trans; [|apply f_refines]. intros en tr r Hev. rewrite eval_EBi in *.
+      destruct (eval_args (eval w) en args tr) as [[vs tr1]|] eqn:E; [|discriminate].
+      rewrite (args_cong _ H _ _ _ E). exact Hev.
+    - split; [|split; [exact I | intros _; apply f_proper; reflexivity]].
+      eapply refines_trans; [|apply f_refines]. intros en tr r Hev. rewrite eval_ESeq in *.
+      destruct (eval_elts (eval w) en elts tr) as [[vs tr1]|] eqn:E; [|discriminate].
+      rewrite (elts_cong _ H _ _ _ E). exact Hev.
+    - split; [|split; [exact I | intros _; apply f_proper; reflexivity]].
+      eapply refines_trans; [|apply f_refines]. intros en tr r Hev. rewrite eval_EDict in *.
+      destruct (eval_items (eval w) en items [] tr) as [[d tr1]|] eqn:E; [|discriminate].
+      rewrite (items_cong _ H _ _ _ _ E). exact Hev.
+    - split; [|split; [exact I | intros _; apply f_proper; reflexivity]].
+      eapply refines_trans; [|apply f_refines]. intros en tr r Hev. rewrite eval_ECmp in *.
+      destruct IHe as [He _]. destruct (eval w e en tr) as [[lv tr0]|] eqn:E; [|discriminate].
+      rewrite (He _ _ _ E). apply chain_cong; assumption.
+    - split; [|split; [exact I | intros _; apply f_proper; reflexivity]].
+      eapply refines_trans; [|apply f_refines]. intros en tr r Hev. cbn [eval] in *.
+      destruct IHe as [He _]. destruct (eval w e en tr) as [[v tr1]|] eqn:E; [|discriminate].
+      rewrite (He _ _ _ E). exact Hev.
+    - split; [|split; [exact I | intros _; apply f_proper; reflexivity]].
+      eapply refines_trans; [|apply f_refines]. intros en tr r Hev. rewrite eval_EComp in *.
+      destruct IHe1 as [H1 _], IHe2 as [H2 _], IHe3 as [H3 _].
+      destruct (eval w e3 en tr) as [[itv tr0]|] eqn:E; [|discriminate]. rewrite (H3 _ _ _ E).
+      destruct (items_of itv) as [xs|]; [|discriminate]. apply loop_cong; assumption.
+    - destruct IHe as [He _]. split; [intros en tr r Hev; discriminate | split; [exact He | intros Hd; discriminate]].
+    - destruct IHe as [He _]. split; [intros en tr r Hev; discriminate | split; [exact He | intros Hd; discriminate]].
+    - destruct IHe1 as [H1 _], IHe2 as [H2 _]. split; [intros en tr r Hev; discriminate | split; [split; assumption | intros Hd; discriminate]].
+    - destruct IHe as [He _]. split; [intros en tr r Hev; discriminate | split; [exact He | intros Hd; discriminate]].
+    - destruct IHe as [He _]. split; [intros en tr r Hev; discriminate | split; [exact He | intros Hd; discriminate]].
+  Qed.
+
+  (* applying f at any set of nodes, bottom-up: a normally terminating evaluation keeps value and trace *)
+  Theorem rw_all_sound : forall e en tr r, eval w e en tr = Some r -> eval w (rw_all f e) en tr = Some r.
+  Proof. intros e. apply cong_all. Qed.
+End Congruence.
+
+Definition lift (rw : expr -> option expr) (a : expr) : expr :=
+  match rw a with Some a' => a' | None => a end.
+
+(* a rule that is right at the root and yields proper expressions is right when applied bottom-up at
+   every node (the walker of the real rule visits every node) *)
+Theorem lift_sound : forall w (rw : expr -> option expr),
+  (forall a a', rw a = Some a' ->
+     wrapper a' = false /\ forall en tr r, eval w a en tr = Some r -> eval w a' en tr = Some r) ->
+  forall e en tr r, eval w e en tr = Some r -> eval w (rw_all (lift rw) e) en tr = Some r.
+Proof.
+  intros w rw H. apply rw_all_sound.
+  - intros a en tr r Hev. unfold lift. destruct (rw a) as [a'|] eqn:E; [|exact Hev].
+    destruct (H _ _ E) as [_ Hr]. apply Hr. exact Hev.
+  - intros a Ha. unfold lift. destruct (rw a) as [a'|] eqn:E; [|exact Ha]. apply (H _ _ E).
+Qed.
+
+Lemma rw_dup_set_proper : forall a a', rw_dup_set a = Some a' -> wrapper a' = false.
+Proof.
+  intros a a' H. destruct a; try discriminate. destruct k; try discriminate. cbn [rw_dup_set] in H.
+  destruct (length (dedup_set_elts [] elts) <? length elts)%nat; [|discriminate]. injection H as <-. reflexivity.
+Qed.
+
+Lemma rw_dup_dict_proper : forall a a', rw_dup_dict a = Some a' -> wrapper a' = false.
+Proof.
+  intros a a' H. destruct a; try discriminate. cbn [rw_dup_dict] in H.
+  destruct (length (dedup_dict_items (length items) [] items) <? length items)%nat; [|discriminate].
+  injection H as <-. reflexivity.
+Qed.
+
+Lemma rw_unpacks_proper : forall a a', rw_unpacks a = Some a' -> wrapper a' = false.
+Proof.
+  intros a a' H. destruct a; try discriminate. cbn [rw_unpacks] in H. destruct (unpack_elts k elts) as [r ch].
+  destruct ch; [|discriminate]. destruct k, r; injection H as <-; reflexivity.
+Qed.
+
+Lemma rw_dict_unpacks_proper : forall a a', rw_dict_unpacks a = Some a' -> wrapper a' = false.
+Proof.
+  intros a a' H. destruct a; try discriminate. cbn [rw_dict_unpacks] in H. destruct (unpack_items items) as [r ch].
+  destruct ch; [|discriminate]. injection H as <-. reflexivity.
+Qed.
+
+Theorem dup_set_everywhere : forall w e en tr r,
+  eval w e en tr = Some r -> eval w (rw_all (lift rw_dup_set) e) en tr = Some r.
+Proof.
+  intros w. apply lift_sound. intros a a' H. split; [eapply rw_dup_set_proper; eassumption|].
+  intros en tr r Hev. rewrite (dup_set_sound w a a' H). exact Hev.
+Qed.
+
+Theorem dup_dict_everywhere : forall w e en tr r,
+  eval w e en tr = Some r -> eval w (rw_all (lift rw_dup_dict) e) en tr = Some r.
+Proof.
+  intros w. apply lift_sound. intros a a' H. split; [eapply rw_dup_dict_proper; eassumption|].
+  apply dup_dict_sound. assumption.
+Qed.
+
+Theorem unpacks_everywhere : forall w e en tr r,
+  eval w e en tr = Some r -> eval w (rw_all (lift rw_unpacks) e) en tr = Some r.
+Proof.
+  intros w. apply lift_sound. intros a a' H. split; [eapply rw_unpacks_proper; eassumption|].
+  apply unpacks_sound. assumption.
+Qed.
+
+Theorem dict_unpacks_everywhere : forall w e en tr r,
+  eval w e en tr = Some r -> eval w (rw_all (lift rw_dict_unpacks) e) en tr = Some r.
+Proof.
+  intros w. apply lift_sound. intros a a' H. split; [eapply rw_dict_unpacks_proper; eassumption|].
+  apply dict_unpacks_sound. assumption.
+Qed.
+
+Example everywhere_example :
+  rw_all (lift rw_dup_set)
+    (ECall 0 [ESeq KList [ESeq KSet [EConst (AInt 1); EConst (ABool true)]; EStar (ESeq KSet [EName 1; EConst (AStr 1); EConst (AStr 1)])]])
+  = ECall 0 [ESeq KList [ESeq KSet [EConst (AInt 1)]; EStar (ESeq KSet [EName 1; EConst (AStr 1)])]].
+Proof. reflexivity. Qed.
